@@ -38,7 +38,14 @@ impl Typstyle {
         let doc = if let Some(markup) = node.cast() {
             printer.convert_markup(ctx, markup)
         } else if let Some(expr) = node.cast() {
-            printer.convert_expr(ctx, expr)
+            if matches!(
+                node.parent_kind(),
+                Some(SyntaxKind::Markup | SyntaxKind::Math)
+            ) {
+                printer.convert_embedded_expr(ctx, expr)
+            } else {
+                printer.convert_expr(ctx, expr)
+            }
         } else if let Some(pattern) = node.cast() {
             printer.convert_pattern(ctx, pattern)
         } else {
